@@ -143,6 +143,12 @@ def run_case(case):
         if "n_steps" in opts:
             opts["n_steps"] = min(opts["n_steps"], 8)
     rec = smcrun.Recorder(abort_on_stall=True, keep_vectors=False)
+    import pickle
+
+    payloads = []
+    if sampler == "smc" and case["mode"] != "fixed":
+        opts["checkpoint_callback"] = lambda st: payloads.append(pickle.dumps(st))
+        opts["checkpoint_every"] = 1
     if scripted:
         n = int(np.exp(g.uniform(np.log(2), np.log(500))))
         kind = KINDS[g.integers(len(KINDS))]
@@ -162,14 +168,16 @@ def run_case(case):
         if sampler == "blackjax_smc":
             sigma, n = max(sigma, 0.05), min(n, 32)
             t = Target([Coord("box", -5.0, 5.0, float(g.uniform(-2, 2)), sigma) for _ in range(d)])
-        a, _ = make_aspire(t, xpn, seed=int(g.integers(1000)), flow_kwargs=dict(family="tgauss", loc=[0.0] * d, scale=[2.0] * d, lower=[-5.0] * d, upper=[5.0] * d, fixed=True))
+        seed_a = int(g.integers(1000))
+        fk_a = dict(family="tgauss", loc=[0.0] * d, scale=[2.0] * d, lower=[-5.0] * d, upper=[5.0] * d, fixed=True)
+        a, _ = make_aspire(t, xpn, seed=seed_a, flow_kwargs=fk_a)
         where = f"moving sigma={sigma:.3g} d={d} N={n} xp={xpn} sampler={sampler}"
         res = smcrun.run(a, n, sampler, dict(opts), identity=False, max_calls=20000, rec=rec)
         sig = f"moving|{sampler}|{int(np.log10(sigma))}|{int(np.log10(n))}"
     inconclusive = []
 
     def judge(res, rec, opts, where):
-        shown = {k: v for k, v in opts.items() if k not in ("rng", "rng_key", "sampler_kwargs")}
+        shown = {k: v for k, v in opts.items() if k not in ("rng", "rng_key", "sampler_kwargs", "checkpoint_callback", "checkpoint_every")}
         where += f" opts={shown}"
         counters["runs"] += 1
         counters["adaptive_runs" if opts.get("adaptive", True) else "fixed_runs"] += 1
@@ -213,6 +221,33 @@ def run_case(case):
             judge(res2, rec2, opts2, f"{where} THEN run #{rep + 2} on the same sampler object")
             if res2.exc is not None:
                 break
+    # the run continued from one of its checkpoints under newly drawn adaptive options: the whole schedule (restored part
+    # plus continuation) still has to increase strictly and end exactly at 1
+    if case["mode"] != "fixed" and sampler == "smc" and res.exc is None and len(payloads) >= 3 and g.random() < 0.5:
+        while True:
+            opts3, _ = draw_opts(g, sampler)
+            if opts3.get("adaptive", True) and "max_n_steps" not in opts3:
+                break
+        opts3["resume_from"] = payloads[len(payloads) // 2 - 1]
+        asp3 = sc.aspire() if scripted else make_aspire(t, xpn, seed=seed_a, flow_kwargs=fk_a)[0]
+        rec3 = smcrun.Recorder(abort_on_stall=True, keep_vectors=False)
+        res3 = smcrun.run(asp3, n, sampler, dict(opts3), identity=scripted, max_calls=20000, rec=rec3)
+        counters["runs_continued_under_other_options"] += 1
+        w3 = f"{where} THEN continued from a checkpoint with opts={ {k: v for k, v in opts3.items() if k not in ('rng', 'sampler_kwargs', 'resume_from')} }"
+        b3 = [float(to_np(b)) for b in (getattr(res3.history, "beta", None) or [])]
+        if res3.exc is not None:
+            if isinstance(res3.exc, smcrun.StallDetected) or rec3.stall is not None:
+                viol.append({"mech": "C06/stall-beta-does-not-increase", "detail": f"{w3}: {rec3.stall} after betas {b3[-3:]}"})
+            elif type(res3.exc).__name__ == "WatchdogExceeded":
+                inconclusive.append(f"watchdog fired without stall witness: {w3}")
+            else:
+                viol.append({"mech": f"C06/run-raises-{res3.exc_type}", "detail": f"{w3}: {res3.exc_type}: {str(res3.exc)[:160]}"})
+        else:
+            bb = np.asarray(b3)
+            if len(bb) == 0 or (np.diff(bb) <= 0).any():
+                viol.append({"mech": "C06/beta-not-strictly-increasing", "detail": f"{w3}: betas {b3}"})
+            if len(bb) and (bb[-1] != 1.0 or (bb > 1.0).any()):
+                viol.append({"mech": "C06/final-beta-not-one", "detail": f"{w3}: betas end {b3[-3:]}"})
     optsig = "|".join(f"{k}" for k in sorted(shown))
     nontrivial = [f"{sig}|{optsig}|{len(betas)}"] if len(betas) >= 2 else []
     seen = {}
